@@ -265,6 +265,9 @@ func C06(c *core.Ctx) {
 	}
 	c.Check("R1", "dispatcher-once", a.mainFn.Pos(), nDisp == 1, fmt.Sprintf("%d call sites of reqDispacher (want exactly 1)", nDisp))
 	requestsServed(c, "R1", a)
+	// a request keeps its own bytes and source address from the socket to the loop: a read buffer shared between
+	// datagrams lets a later datagram be executed under an earlier one's key (C08 R2)
+	shareFrom(c, "C08", "R1", func(o *core.Obligation) bool { return o.Rule == "R2" && strings.Contains(o.Key, "/R2/packet-owns-bytes") }, 1, "receiver hand-over sites")
 	recvObj := p.Method(pkgPfcp, "RxTransaction", "recv")
 	recvCalls := core.Calls(a.mainFn, recvObj)
 	if len(recvCalls) != 1 {
@@ -1041,6 +1044,9 @@ func C09(c *core.Ctx) {
 	}
 	c.Floor("R3", n3, 1, "calls of TxTransaction.recv")
 	responsesMatched(c, "R3", a)
+	// "responses matching no outstanding request are ignored without effect": in particular they do not end the
+	// event loop (C07 P5)
+	shareFrom(c, "C07", "R3", func(o *core.Obligation) bool { return o.Rule == "P5" && strings.Contains(o.Key, "/P5/loop-exit") }, 1, "exits of the event loop")
 	// the response dispatcher runs only after a match
 	for _, ci := range core.Calls(a.mainFn, p.Method(pkgPfcp, "PfcpServer", "rspDispacher")) {
 		dom := false
